@@ -447,6 +447,8 @@ def _check(args):
                 del victim[k]
         else:
             ch.insert(ch.index(victim) + 1, dict(victim))
+    if i % 4 == 1:              # truth values on the rows that open a group or repeat, not only on questions
+        forms.add_exotics(rng_for(seed, PID, "exotic", i), form, ["group_truth"], p=1.0)
     if rng.random() < 0.4:      # flag settings read through the yes/no table
         row = (form.get("settings") or [{}])[0]
         if rng.random() < 0.5 and not any(k.startswith("public_key") for k in row):
